@@ -71,10 +71,14 @@ type fileSpec struct {
 	ct          string // declared content type ("" = none)
 	errAt       int
 	st          *kernel.Stream
+	startAt     int // seekable source handed over positioned here (0 = plain source)
+	seekable    bool
 }
 
 type world struct {
 	env       *kernel.Env
+	method    string
+	presetCT  string
 	idx       int
 	conc      string
 	kind      string
@@ -155,6 +159,9 @@ func genContent(t *kernel.Tape) []byte {
 
 func (w *world) WriteToRequest(req runtime.ClientRequest, _ strfmt.Registry) error {
 	_ = req.SetHeaderParam("X-Up", fmt.Sprint(w.idx))
+	if w.presetCT != "" {
+		_ = req.SetHeaderParam("Content-Type", w.presetCT) // a stale header left by the caller must not survive
+	}
 	for _, f := range w.fields {
 		_ = req.SetFormParam(f.name, f.values...)
 	}
@@ -176,6 +183,8 @@ func (w *world) WriteToRequest(req runtime.ClientRequest, _ strfmt.Registry) err
 		var nrc runtime.NamedReadCloser = up
 		if f.ct != "" {
 			nrc = &simhttp.UploadFileCT{UploadFile: up, CT: f.ct}
+		} else if f.seekable {
+			nrc = &simhttp.SeekableUpload{UploadFile: up}
 		}
 		byField[f.field] = append(byField[f.field], nrc)
 	}
@@ -206,6 +215,10 @@ func genWorld(tape *kernel.Tape, env *kernel.Env, idx int) (*world, bool) {
 	w := &world{env: env, idx: idx}
 	pfx := fmt.Sprintf("c%d-", idx)
 	w.kind = []string{"files", "both", "form-multi", "form-url", "value", "reader", "readcloser", "none"}[tape.Choose(8, "kind")]
+	w.method = []string{"POST", "POST", "PUT", "PATCH", "GET", "DELETE"}[tape.Choose(6, "method")]
+	if tape.Bool(5, "preset-content-type") {
+		w.presetCT = []string{"application/x-stale", "text/plain", "application/json"}[tape.Choose(3, "preset")]
+	}
 	w.getBody = tape.Weighted("getbody", 3, 3, 2, 1)
 	useAuth := w.getBody > 0 || tape.Bool(3, "auth-without-getbody")
 	w.fault = tape.Bool(6, "source-fault?")
@@ -294,6 +307,11 @@ func genWorld(tape *kernel.Tape, env *kernel.Env, idx int) (*world, bool) {
 			st.TermWithData = tape.Bool(2, "fwithdata")
 			if w.fault && i == faultFile {
 				setFault(st, f.data, "file read error")
+			} else if f.ct == "" && tape.Bool(4, "seekable-source") {
+				// like an *os.File the application has already read an envelope from
+				f.seekable = true
+				f.startAt = tape.Choose(len(f.data)+1, "start-offset")
+				st.Pos = f.startAt
 			}
 			f.st = st
 			w.files = append(w.files, f)
@@ -351,7 +369,7 @@ func (prop) Run(t *testing.T, tape *kernel.Tape, sc kernel.Scenario) *kernel.Res
 		rt.Transport = tr
 		for i := range worlds {
 			i, w := i, worlds[i]
-			op := &runtime.ClientOperation{ID: "send", Method: "POST", PathPattern: "/send", Schemes: []string{"http"},
+			op := &runtime.ClientOperation{ID: "send", Method: w.method, PathPattern: "/send", Schemes: []string{"http"},
 				ConsumesMediaTypes: []string{w.mediaType}, ProducesMediaTypes: []string{"application/json"},
 				Params: w,
 				Reader: runtime.ClientResponseReaderFunc(func(r runtime.ClientResponse, _ runtime.Consumer) (any, error) { return r.Code(), nil })}
@@ -431,9 +449,9 @@ func firstDiff(a, b []byte) int {
 
 func (w *world) summary() string {
 	var sb strings.Builder
-	fmt.Fprintf(&sb, "kind=%s media=%s getbody=%d fault=%v fields=%d", w.kind, w.mediaType, w.getBody, w.fault, len(w.fields))
+	fmt.Fprintf(&sb, "%s kind=%s media=%s preset=%q getbody=%d fault=%v fields=%d", w.method, w.kind, w.mediaType, w.presetCT, w.getBody, w.fault, len(w.fields))
 	for _, f := range w.files {
-		fmt.Fprintf(&sb, " file{%q/%q len=%d ct=%q first=%d chunk=%d}", f.field, f.name, len(f.data), f.ct, f.st.FirstChunk, f.st.ChunkMode)
+		fmt.Fprintf(&sb, " file{%q/%q len=%d ct=%q first=%d chunk=%d start=%d}", f.field, f.name, len(f.data), f.ct, f.st.FirstChunk, f.st.ChunkMode, f.startAt)
 	}
 	return sb.String()
 }
@@ -523,15 +541,16 @@ func (w *world) checkBody(ex *simhttp.Exchange) {
 			}
 		}
 		for _, f := range w.files {
+			content := f.data[f.startAt:] // exactly what the handed-over reader yields
 			ctype := f.ct
 			if ctype == "" {
-				head := f.data
+				head := content
 				if len(head) > 512 {
 					head = head[:512]
 				}
 				ctype = http.DetectContentType(head)
 			}
-			want = append(want, part{kind: "file", field: f.field, filename: filepath.Base(f.name), data: string(f.data), ctype: ctype})
+			want = append(want, part{kind: "file", field: f.field, filename: filepath.Base(f.name), data: string(content), ctype: ctype})
 		}
 		sortParts(got)
 		sortParts(want)
